@@ -18,6 +18,18 @@ import (
 
 // ---- independent readers ----
 
+// c16Decode decodes b as a receiver would: from a buffer that is reused (here:
+// overwritten) as soon as the decoder has returned, so that what the clauses look
+// at is the message the caller is left with.
+func c16Decode(b []byte) (dhcpv6.DHCPv6, error) {
+	bb := append([]byte{}, b...)
+	d, err := dhcpv6.FromBytes(bb)
+	for i := range bb {
+		bb[i] ^= 0x5a
+	}
+	return d, err
+}
+
 func firstOfCode(os dhcpv6.Options, code dhcpv6.OptionCode) dhcpv6.Option {
 	for _, o := range os {
 		if o.Code() == code {
@@ -193,7 +205,7 @@ func (c *c16ctx) checkFold(inner *dhcpv6.Message, hs []hdr6, roundTrips bool) {
 			return
 		}
 		// ... also after a trip over the wire
-		dec, err := dhcpv6.FromBytes(cur.ToBytes())
+		dec, err := c16Decode(cur.ToBytes())
 		if err != nil {
 			c.fail("inner-wire", full+" wire=1", "encoded chain does not decode: "+err.Error())
 			return
@@ -273,7 +285,7 @@ func (c *c16ctx) checkRelayRepl(relay *dhcpv6.RelayMessage, msg *dhcpv6.Message,
 		}
 		c.relayReplClauses(line, fl, out, msg, true)
 		// the same clauses on the reply as the peer sees it
-		dec, err := dhcpv6.FromBytes(out.ToBytes())
+		dec, err := c16Decode(out.ToBytes())
 		if err != nil {
 			c.fail("relayrepl-wire", line+" owire=1", "the relay-reply does not decode: "+err.Error())
 			return
@@ -521,7 +533,7 @@ func (c *c16ctx) fromLine(line string) {
 	pos := positional(toks[1:])
 	m := mkMsg6(parseSx(pos[0]))
 	if w, _ := kv(toks[1:], "wire"); w == "1" {
-		d, err := dhcpv6.FromBytes(m.ToBytes())
+		d, err := c16Decode(m.ToBytes())
 		if err != nil {
 			return
 		}
@@ -605,7 +617,7 @@ func oracleC16(r *Rng, n int, thorough bool, seeds []string) *OracleResult {
 			}
 			if rr.Chance(1, 3) {
 				// the relay-forward as a server receives it
-				if d, err := dhcpv6.FromBytes(ch.ToBytes()); err == nil {
+				if d, err := c16Decode(ch.ToBytes()); err == nil {
 					if drm, ok := d.(*dhcpv6.RelayMessage); ok {
 						ch = drm
 						c.res.Tags["relayrepl on decoded chain"]++
